@@ -710,6 +710,32 @@ def coincidence_specs():
     return res
 
 
+def bit_flag_cross_product():
+    """A fixed block, part of every C14 run: -bit together with EVERY subset of -json -text -sql (and -gorm
+    with -sql, against the stub gorm module): 12 flag sets.  The constant names are deliberately NOT in
+    alphabetical order when sorted by value, and a declared combination precedes one of its members
+    alphabetically, so any reordering of the name list shows in String()."""
+    I = ("iota",)
+    res = []
+    kinds = ["uint8", "int16", "uint32", "int", "uint64", "int8", "uint16", "int32", "uint", "int64", "uint8", "int"]
+    k = 0
+    for j in (False, True):
+        for t in (False, True):
+            for q in (False, True):
+                for g in ((False, True) if q else (False,)):
+                    T = ("ident", "Perm")
+                    fl = {"bit": True, "json": j, "text": t, "sql": q, "gorm": g}
+                    res.append(hand_spec("wx%02d" % k, [("Perm", kinds[k])],
+                                         [[(["PermNone"], T, [lit(0)]),
+                                           (["PermRead"], T, [("shl", lit(1), ("sub", I, lit(1)))]),
+                                           (["PermWrite"], None, []), (["PermExec"], None, []),
+                                           (["PermRW"], T, [("or", ("ref", "PermRead"), ("ref", "PermWrite"))]),
+                                           (["PermAll"], T, [lit(7)]), (["PermDelete"], T, [lit(8)])]],
+                                         [("Perm", fl)]))
+                    k += 1
+    return res
+
+
 def witness_big(name="wbig"):
     """uint64 values above MaxInt64 (second half of K_enum_neg / K_enum_sort_unsigned)"""
     T = ("ident", "Big")
